@@ -14,11 +14,30 @@ import (
 	"github.com/robustirc/robustirc/internal/robust"
 )
 
+// vNickFold is the oracle's own implementation of IRC case mapping (RFC 2812: letters compared
+// case-insensitively, []\ equivalent to {}|); it must not depend on the repository's NickToLower.
+func vNickFold(n string) string {
+	b := []byte(n)
+	for k, c := range b {
+		switch {
+		case c >= 'A' && c <= 'Z':
+			b[k] = c + 32
+		case c == '[':
+			b[k] = '{'
+		case c == ']':
+			b[k] = '}'
+		case c == '\\':
+			b[k] = '|'
+		}
+	}
+	return string(b)
+}
+
 // vInvariants returns a list of (signature, description) pairs.
 func vInvariants(i *IRCServer) [][2]string {
 	var bad [][2]string
 	add := func(sig, desc string) { bad = append(bad, [2]string{sig, desc}) }
-	owners := map[lcNick][]robust.Id{}
+	owners := map[string][]robust.Id{}
 	for id, s := range i.sessions {
 		if s == nil {
 			add("nil session in sessions", fmt.Sprint(id))
@@ -28,7 +47,10 @@ func vInvariants(i *IRCServer) [][2]string {
 			add("session flagged deleted survives the entry", vid(id))
 		}
 		if s.Nick != "" {
-			owners[NickToLower(s.Nick)] = append(owners[NickToLower(s.Nick)], id)
+			owners[vNickFold(s.Nick)] = append(owners[vNickFold(s.Nick)], id)
+			if string(NickToLower(s.Nick)) != vNickFold(s.Nick) {
+				add("nickname is indexed under a key that is not its IRC case mapping", fmt.Sprintf("%q is keyed %q, case mapping gives %q", s.Nick, NickToLower(s.Nick), vNickFold(s.Nick)))
+			}
 			if !IsValidNickname(s.Nick) {
 				add("owned nickname is not syntactically valid", fmt.Sprintf("%s owns %q", vid(id), s.Nick))
 			}
